@@ -11,9 +11,13 @@ pub uninterp spec fn lower(s: Seq<char>) -> Seq<char>;
 /// R7: `x.to_lowercase().as_str()` (assumed contract on std)
 #[verifier::external_body]
 pub fn str_lower(s: &str) -> (r: String) ensures r@ == lower(s@) { unimplemented!() }
+/// anything with a string view (String, &str)
+pub trait StrView { spec fn sv(&self) -> Seq<char>; }
+impl StrView for String { open spec fn sv(&self) -> Seq<char> { self@ } }
+impl<'a> StrView for &'a str { open spec fn sv(&self) -> Seq<char> { self@ } }
 /// R7: `==` / literal patterns on string slices compare the character sequences (assumed contract on std)
 #[verifier::external_body]
-pub fn str_is(s: &String, lit: &str) -> (b: bool) ensures b == (s@ == lit@) { unimplemented!() }
+pub fn str_is<S: StrView>(s: &S, lit: &str) -> (b: bool) ensures b == (s.sv() == lit@) { unimplemented!() }
 
 /// the documented meaning of a policy name
 pub open spec fn policy_named(s: Seq<char>) -> EvictionPolicy {
@@ -51,6 +55,8 @@ UNIT = dict(
     name='policy',
     lemma_props={'lemma_policy_names': ['C07', 'C08'], '*': ['C07', 'C08']},
     items=POLICY_ITEMS + [SPEC,
+        dict(kind='fn', file=POLICY, impl=r'^impl EvictionPolicy$', name='default', label='EvictionPolicy::default', ret='p', props=['C07', 'C08'],
+             ensures=[('documented_default', [], 'p == EvictionPolicy::LRU')]),
         dict(kind='fn', file=POLICY, impl=r'^impl From<&str> for EvictionPolicy$', name='from', label='EvictionPolicy::from', keep_private=True, r7=True, ret='p',
              props=['C07', 'C08'],
              ensures=[('name_selects_its_variant', ['C07', 'C08'], 'p == policy_named(lower(s@))')],
